@@ -27,12 +27,14 @@ import (
 	"sort"
 	"strings"
 	"sync"
+	"time"
 
 	"verif/harness/lib"
 
 	"github.com/buchgr/bazel-remote/v2/cache"
 	"github.com/buchgr/bazel-remote/v2/cache/disk"
 	pb "github.com/buchgr/bazel-remote/v2/genproto/build/bazel/remote/execution/v2"
+	"github.com/klauspost/compress/zstd"
 	"google.golang.org/protobuf/proto"
 )
 
@@ -46,6 +48,9 @@ func (c cfg) String() string { return c.storage + "/" + c.impl }
 var cfgs = []cfg{{"zstd", "go"}, {"zstd", "cgo"}, {"uncompressed", "go"}, {"uncompressed", "cgo"}}
 
 const bigCache = int64(16) << 30 // never evict
+
+// settleMax bounds waits for quiescence (expiry is never a verdict).
+const settleMax = 20 * time.Second
 
 func run(r *lib.Run) {
 	r.SetRule("distinct tuples: dir1 = (representation, chunk size, encoder, size class, open cfg); dir2 = (cfg, path, kind, size class); golden = (golden id, cfg, direction); naming = (backend, kind, mode, prefix class, hash)")
@@ -153,11 +158,16 @@ func apiGet(c disk.Cache, kind string, hash string, size, offset int64, zstd boo
 			return
 		}
 		o.found = true
-		b, err := io.ReadAll(rc)
-		if err != nil {
+		hint := int64(4096)
+		if o.size > offset {
+			hint += o.size - offset + o.size/128
+		}
+		buf := bytes.NewBuffer(make([]byte, 0, hint))
+		if _, err = buf.ReadFrom(rc); err != nil {
 			o.err = "read: " + err.Error()
 			return
 		}
+		b := buf.Bytes()
 		if zstd {
 			var d []byte
 			if useC {
@@ -230,11 +240,28 @@ type encoder struct {
 	slow bool
 }
 
+// kpEncoders: one shared klauspost encoder per level (EncodeAll is safe for
+// concurrent use; creating an encoder per chunk costs megabytes of cleared
+// tables each time).
+var kpEncoders = func() map[int]*zstd.Encoder {
+	m := map[int]*zstd.Encoder{}
+	for lv := 1; lv <= 4; lv++ {
+		e, err := zstd.NewWriter(nil, zstd.WithEncoderLevel(zstd.EncoderLevel(lv)), zstd.WithEncoderConcurrency(8))
+		if err != nil {
+			panic(err)
+		}
+		m[lv] = e
+	}
+	return m
+}()
+
+func encodeKP(b []byte, level int) []byte { return kpEncoders[level].EncodeAll(b, nil) }
+
 var encoders = []encoder{
-	{"kp1", func(c []byte) []byte { return lib.ZstdEncodeKP(c, 1) }, false},
-	{"kp2", func(c []byte) []byte { return lib.ZstdEncodeKP(c, 2) }, false},
-	{"kp3", func(c []byte) []byte { return lib.ZstdEncodeKP(c, 3) }, false},
-	{"kp4", func(c []byte) []byte { return lib.ZstdEncodeKP(c, 4) }, true},
+	{"kp1", func(c []byte) []byte { return encodeKP(c, 1) }, false},
+	{"kp2", func(c []byte) []byte { return encodeKP(c, 2) }, false},
+	{"kp3", func(c []byte) []byte { return encodeKP(c, 3) }, false},
+	{"kp4", func(c []byte) []byte { return encodeKP(c, 4) }, true},
 	{"c1", func(c []byte) []byte { return lib.ZstdEncodeC(c, 1) }, false},
 	{"c3", func(c []byte) []byte { return lib.ZstdEncodeC(c, 3) }, false},
 	{"c9", func(c []byte) []byte { return lib.ZstdEncodeC(c, 9) }, false},
